@@ -155,7 +155,7 @@ func maxInt(a, b int) int {
 
 const controlInfo = `{"apiVersion":"rollouts.kruise.io/v1beta1","kind":"BatchRelease","name":"br","uid":"br-uid","controller":true,"blockOwnerDeletion":true}`
 
-type ctrl interface {
+type batchCtrl interface {
 	CalculateBatchContext(release *v1beta1.BatchRelease) (*batchcontext.BatchContext, error)
 	UpgradeBatch(ctx *batchcontext.BatchContext) error
 }
@@ -184,7 +184,7 @@ func (arithEngine) Run(inAny any) (res any) {
 	}
 	var obj client.Object
 	var readKnob func(cli client.Client) *IOS
-	var build func(cli client.Client) (ctrl, error)
+	var build func(cli client.Client) (batchCtrl, error)
 	fromIOSPtr := func(p *intstr.IntOrString) *IOS {
 		if p == nil {
 			return nil
@@ -209,7 +209,7 @@ func (arithEngine) Run(inAny any) (res any) {
 				_ = cli.Get(context.TODO(), key, o)
 				return fromIOSPtr(o.Spec.UpdateStrategy.Partition)
 			}
-			build = func(cli client.Client) (ctrl, error) {
+			build = func(cli client.Client) (batchCtrl, error) {
 				return partcloneset.NewController(cli, key, schemaGVK("CloneSet")).BuildController()
 			}
 		} else {
@@ -221,7 +221,7 @@ func (arithEngine) Run(inAny any) (res any) {
 				_ = cli.Get(context.TODO(), key, o)
 				return fromIOSPtr(o.Spec.UpdateStrategy.MaxSurge)
 			}
-			build = func(cli client.Client) (ctrl, error) {
+			build = func(cli client.Client) (batchCtrl, error) {
 				return bgcloneset.NewController(cli, key, schemaGVK("CloneSet")).BuildController()
 			}
 		}
@@ -244,7 +244,7 @@ func (arithEngine) Run(inAny any) (res any) {
 			}
 			return fromInt32Ptr(o.Spec.UpdateStrategy.RollingUpdate.Partition)
 		}
-		build = func(cli client.Client) (ctrl, error) {
+		build = func(cli client.Client) (batchCtrl, error) {
 			return partstatefulset.NewController(cli, key, kruiseappsv1beta1.SchemeGroupVersion.WithKind("StatefulSet")).BuildController()
 		}
 		obj = st
@@ -263,7 +263,7 @@ func (arithEngine) Run(inAny any) (res any) {
 			}
 			return fromInt32Ptr(o.Spec.UpdateStrategy.RollingUpdate.Partition)
 		}
-		build = func(cli client.Client) (ctrl, error) {
+		build = func(cli client.Client) (batchCtrl, error) {
 			return partdaemonset.NewController(cli, key, schemaGVK("DaemonSet")).BuildController()
 		}
 		obj = ds
@@ -281,7 +281,7 @@ func (arithEngine) Run(inAny any) (res any) {
 			s := util.GetDeploymentStrategy(o)
 			return fromIOSPtr(&s.Partition)
 		}
-		build = func(cli client.Client) (ctrl, error) {
+		build = func(cli client.Client) (batchCtrl, error) {
 			return partdeployment.NewController(cli, key, apps.SchemeGroupVersion.WithKind("Deployment")).BuildController()
 		}
 		obj = d
@@ -297,7 +297,7 @@ func (arithEngine) Run(inAny any) (res any) {
 			}
 			return fromIOSPtr(o.Spec.Strategy.RollingUpdate.MaxSurge)
 		}
-		build = func(cli client.Client) (ctrl, error) {
+		build = func(cli client.Client) (batchCtrl, error) {
 			return bgdeployment.NewController(cli, key, apps.SchemeGroupVersion.WithKind("Deployment")).BuildController()
 		}
 		obj = d
